@@ -6,11 +6,15 @@ import lib
 from theorems import THEOREMS
 
 TRUSTED_BASE = [
-    "Lean 4.33.0 kernel",
-    "axioms allowed: propext, Classical.choice, Quot.sound (audited with #print axioms each run)",
-    "specification definitions in lean/Abnf/Spec.lean and the statements in lean/Abnf/Theorems/",
-    "hand-written model lean/Abnf/Engine.lean tied to /repo by the behavioural correspondence of this run",
-    "harness (harness/*.py): generators, canonicalisation, wire encoding; compiled driver (Lean compiler + runtime)",
+    "Lean 4.33.0 kernel (decide +kernel for the Boolean checkers over regenerated tables; leanchecker in the thorough tier)",
+    "axioms allowed: propext, Classical.choice, Quot.sound (audited with #print axioms each run); no sorry/admit/axiom/native_decide (grep each run)",
+    "specification definitions in lean/Abnf/Spec.lean (RefSem.lean for flags/exclusions) and the statements in lean/Abnf/Theorems/",
+    "hand-typed RFC data lean/Abnf/Ref.lean (cross-checked by the C05/C06/C15/C09 equivalence theorems)",
+    "translator harness/extract.py (object graph -> lean/AbnfGen/*.lean; its certificates, masks and pair lists are untrusted hints checked in Lean); "
+    "for C09 also the independent reader harness/abnf_ref.py",
+    "hand-written model lean/Abnf/{Engine,EngineC,Resume,Cache,Registry,Visitor,Compile,CompileTree,Load,Heap}.lean tied to /repo by the behavioural correspondence of this run",
+    "harness (harness/*.py): generators, canonicalisation, wire encoding; compiled driver (Lean compiler + runtime; its cached engine is proved equal to the cache-free one, DriverCache.lean)",
+    "modelled, not verified: CPython (str, dict order, GIL atomicity of one cache operation, import system, recursion limit), file I/O",
 ]
 
 
